@@ -25,10 +25,10 @@ RULE = ("Hypothesis: abstract triple sets (IRI/bnode subjects, IRI/bnode/literal
         "rdflib cross-checks the generator.  Non-trivial: a line break inside a statement, a comment, or a literal with a special "
         "character; distinct by SHA-1 of the case.")
 ASSUMPTIONS = ["rdflib 6.0.2 Turtle parser as second opinion on every generated document", "5 s alarm + line-event bound for non-termination"]
-BUDGET = {"quick": {"examples": 12000, "wall": 240}, "thorough": {"examples": 1200000, "wall": 5400}}
+BUDGET = {"quick": {"examples": 12000, "wall": 240}, "thorough": {"examples": 400000, "wall": 900}}
 EXHAUSTIVE = {"quick": False, "thorough": False}
 # coverage-guided supplement (vf/fuzz.py): libFuzzer runs per shard, 16 shards
-FUZZ = {"quick": {"runs": 6000, "wall": 120}, "thorough": {"runs": 100000, "wall": 3000}}
+FUZZ = {"quick": {"runs": 6000, "wall": 120}, "thorough": {"runs": 50000, "wall": 600}}
 FLOORS = {"nontrivial": 0.4, "linebreak-in-statement": 0.3, "comment": 0.1, "special-literal": 0.15}
 
 from vf.sut import shexer  # noqa
